@@ -155,6 +155,28 @@ class OWorld:
                 s += e * e
         return math.sqrt(s)
 
+    def penalty_noise(self, k=None, flags=None):
+        """bound on the floating-point evaluation error of penalty(): a few ulps of the magnitudes that enter each
+        residual (plant terms and target value), weighted like the penalty.  Differences below it are rounding, not
+        a worse point."""
+        k = self.knob_values() if k is None else k
+        flags = self.target_flags() if flags is None else flags
+        p = self.spec["plant"]
+        s = 0.0
+        for j, row in enumerate(p["A"]):
+            if not flags[j]:
+                continue
+            m = abs(p["b"][j]) + abs(self.spec["values"][j])
+            for i, a in enumerate(row):
+                kk = abs(k[i]) + (abs(p["c"][i]) if "c" in p else 0.0)
+                m += abs(a) * max(1.0, kk, kk * kk)
+            if "q" in p:
+                kk = abs(k[j % len(k)])
+                m += abs(p["q"][j]) * kk * kk
+            e = m * self.spec["tweights"][j]
+            s += e * e
+        return 64 * 2.220446049250313e-16 * math.sqrt(s)
+
     def within_tol(self, k=None, flags=None):
         r = self.residuals(k)
         flags = self.target_flags() if flags is None else flags
